@@ -374,7 +374,7 @@ func execLex(c core.Case) []core.Rec {
 	res := core.Rec{"panic": false, "err": false, "msg": ""}
 	rec := core.Rec{"chk": "lex", "slot": slot.Name, "style": style, "ws": ws, "arg": argS, "written": textS, "res": res, "readback": "",
 		"rb_is_text": false, "rb_is_body": false,
-		"sig": core.Rec{"slot": slot.Name, "style": style, "ws": ws, "chars": charClasses(arg), "concat": strings.Contains(style, "+")}}
+		"sig": core.Rec{"slot": slot.Name, "style": style, "ws": ws, "chars": charClasses(arg), "concat": strings.Contains(style, "+"), "empty": len(arg) == 0}}
 	func() {
 		defer func() {
 			if r := recover(); r != nil {
@@ -422,30 +422,188 @@ func charClasses(arg []string) string {
 	return strings.Join(out, ",")
 }
 
-// case {kind:"order", names: [sibling names in textual order], kinds: [...]}
+// case {kind:"order", what, names: [names in textual order], kinds: [...], drop}
+// what = "siblings" (default): mixed sibling definitions of a container, optionally one of them
+// taken away by a deviation (drop); "revisions" | "musts" | "enums" | "bits" | "keys" | "unique" |
+// "iffeatures" | "lldefaults" | "includes": the statements of one kind in the order written
 func execOrder(c core.Case) []core.Rec {
 	var names, kinds []string
 	core.Recode(c["names"], &names)
 	core.Recode(c["kinds"], &kinds)
+	what, _ := c["what"].(string)
+	if what == "" {
+		what = "siblings"
+	}
+	drop, _ := c["drop"].(string)
+	want := append([]string{}, names...)
 	var sb strings.Builder
-	sb.WriteString(lexHead + " revision 2024-01-01;\n container c {\n")
-	for i, n := range names {
-		switch kinds[i] {
-		case "leaf":
-			fmt.Fprintf(&sb, "  leaf %s { type string; }\n", n)
-		case "container":
-			fmt.Fprintf(&sb, "  container %s { leaf x { type string; } }\n", n)
-		case "list":
-			fmt.Fprintf(&sb, "  list %s { key \"k\"; leaf k { type string; } }\n", n)
-		case "leaf-list":
-			fmt.Fprintf(&sb, "  leaf-list %s { type string; }\n", n)
-		case "choice":
-			fmt.Fprintf(&sb, "  choice %s { leaf %s-a { type string; } leaf %s-b { type string; } }\n", n, n, n)
-		case "anydata":
-			fmt.Fprintf(&sb, "  anydata %s;\n", n)
+	var get func(m *meta.Module) []string
+	leafOf := func(m *meta.Module, n string) *meta.Leaf {
+		if cc := contC(m); cc != nil {
+			l, _ := cc.DataDefinition(n).(*meta.Leaf)
+			return l
+		}
+		return nil
+	}
+	switch what {
+	case "siblings":
+		sb.WriteString(lexHead + " revision 2024-01-01;\n container c {\n")
+		for i, n := range names {
+			switch kinds[i] {
+			case "leaf":
+				fmt.Fprintf(&sb, "  leaf %s { type string; }\n", n)
+			case "container":
+				fmt.Fprintf(&sb, "  container %s { leaf x { type string; } }\n", n)
+			case "list":
+				fmt.Fprintf(&sb, "  list %s { key \"k\"; leaf k { type string; } }\n", n)
+			case "leaf-list":
+				fmt.Fprintf(&sb, "  leaf-list %s { type string; }\n", n)
+			case "choice":
+				fmt.Fprintf(&sb, "  choice %s { leaf %s-a { type string; } leaf %s-b { type string; } }\n", n, n, n)
+			case "anydata":
+				fmt.Fprintf(&sb, "  anydata %s;\n", n)
+			}
+		}
+		sb.WriteString(" }\n")
+		if drop != "" {
+			fmt.Fprintf(&sb, " deviation /l:c/l:%s { deviate not-supported; }\n", drop)
+			want = want[:0]
+			for _, n := range names {
+				if n != drop {
+					want = append(want, n)
+				}
+			}
+		}
+		sb.WriteString("}")
+		get = func(m *meta.Module) (got []string) {
+			if cc := contC(m); cc != nil {
+				for _, d := range cc.DataDefinitions() {
+					got = append(got, d.Ident())
+				}
+			}
+			return
+		}
+	case "revisions":
+		sb.WriteString(lexHead)
+		for i, n := range names {
+			fmt.Fprintf(&sb, " revision %s { description \"r%d\"; }\n", n, i)
+		}
+		sb.WriteString(" container c { leaf x { type string; } }\n}")
+		get = func(m *meta.Module) (got []string) {
+			for _, r := range m.RevisionHistory() {
+				got = append(got, r.Ident())
+			}
+			// the module's revision is the one written first
+			if r := m.Revision(); r == nil || len(got) == 0 || r.Ident() != got[0] || r.Ident() != names[0] {
+				got = append(got, "Revision()-is-not-the-first-statement")
+			}
+			return
+		}
+	case "musts", "iffeatures":
+		sb.WriteString(lexHead + " revision 2024-01-01;\n")
+		if what == "iffeatures" {
+			for _, n := range names {
+				fmt.Fprintf(&sb, " feature %s;\n", n)
+			}
+		}
+		sb.WriteString(" container c { leaf y { type string; }\n  leaf x { type string;\n")
+		for _, n := range names {
+			if what == "musts" {
+				fmt.Fprintf(&sb, "   must \"../y = '%s'\";\n", n)
+			} else {
+				fmt.Fprintf(&sb, "   if-feature %s;\n", n)
+			}
+		}
+		sb.WriteString("  }\n }\n}")
+		if what == "musts" {
+			want = want[:0]
+			for _, n := range names {
+				want = append(want, "../y = '"+n+"'")
+			}
+		}
+		get = func(m *meta.Module) (got []string) {
+			if l := leafOf(m, "x"); l != nil {
+				if what == "musts" {
+					for _, x := range l.Musts() {
+						got = append(got, x.Expression())
+					}
+				} else {
+					for _, x := range l.IfFeatures() {
+						got = append(got, x.Expression())
+					}
+				}
+			}
+			return
+		}
+	case "enums", "bits":
+		sb.WriteString(lexHead + " revision 2024-01-01;\n container c { leaf x { type ")
+		if what == "enums" {
+			sb.WriteString("enumeration {")
+			for _, n := range names {
+				fmt.Fprintf(&sb, " enum %s;", n)
+			}
+		} else {
+			sb.WriteString("bits {")
+			for _, n := range names {
+				fmt.Fprintf(&sb, " bit %s;", n)
+			}
+		}
+		sb.WriteString(" } } }\n}")
+		get = func(m *meta.Module) (got []string) {
+			if l := leafOf(m, "x"); l != nil {
+				if what == "enums" {
+					for _, e := range l.Type().Enums() {
+						got = append(got, e.Ident())
+					}
+				} else {
+					for _, b := range l.Type().Bits() {
+						got = append(got, b.Ident())
+					}
+				}
+			}
+			return
+		}
+	case "keys", "unique":
+		sb.WriteString(lexHead + " revision 2024-01-01;\n container c { list x {\n")
+		if what == "keys" {
+			fmt.Fprintf(&sb, "  key \"%s\";\n", strings.Join(names, " "))
+		} else {
+			fmt.Fprintf(&sb, "  key \"id\"; leaf id { type string; }\n  unique \"%s\";\n", strings.Join(names, " "))
+		}
+		// the leaves themselves are written in another order than the key names them
+		for i := len(names) - 1; i >= 0; i-- {
+			fmt.Fprintf(&sb, "  leaf %s { type string; }\n", names[i])
+		}
+		sb.WriteString(" } }\n}")
+		get = func(m *meta.Module) (got []string) {
+			if cc := contC(m); cc != nil {
+				if l, _ := cc.DataDefinition("x").(*meta.List); l != nil {
+					if what == "keys" {
+						for _, k := range l.KeyMeta() {
+							got = append(got, k.Ident())
+						}
+					} else if u := l.Unique(); len(u) == 1 {
+						got = append(got, u[0]...)
+					}
+				}
+			}
+			return
+		}
+	case "lldefaults":
+		sb.WriteString(lexHead + " revision 2024-01-01;\n container c { leaf-list x { type string;\n")
+		for _, n := range names {
+			fmt.Fprintf(&sb, "  default \"%s\";\n", n)
+		}
+		sb.WriteString(" } }\n}")
+		get = func(m *meta.Module) (got []string) {
+			if cc := contC(m); cc != nil {
+				if l, _ := cc.DataDefinition("x").(*meta.LeafList); l != nil {
+					got = append(got, l.Default()...)
+				}
+			}
+			return
 		}
 	}
-	sb.WriteString(" }\n}")
 	res := core.Rec{"panic": false, "err": false, "msg": ""}
 	got := []string{}
 	func() {
@@ -461,11 +619,9 @@ func execOrder(c core.Case) []core.Rec {
 			res["msg"] = err.Error()
 			return
 		}
-		if cc := contC(m); cc != nil {
-			for _, d := range cc.DataDefinitions() {
-				got = append(got, d.Ident())
-			}
+		if g := get(m); g != nil {
+			got = g
 		}
 	}()
-	return []core.Rec{{"chk": "order", "want": names, "got": got, "res": res, "sig": core.Rec{"n": len(names)}}}
+	return []core.Rec{{"chk": "order", "what": what, "want": want, "got": got, "res": res, "sig": core.Rec{"n": len(names), "what": what, "dropped": drop != ""}}}
 }
